@@ -21,8 +21,8 @@ func fn(body node.Type, params ...string) node.Type {
 func call(f string, args ...node.Type) node.Type {
 	return node.Call{Name: node.Name(f), Arguments: node.List{Elems: args}}
 }
-func blk(b ...node.Type) node.Type          { return node.Block{Body: b} }
-func asg(v string, e node.Type) node.Type   { return node.Assign{VarRef: node.Name(v), Value: e} }
+func blk(b ...node.Type) node.Type            { return node.Block{Body: b} }
+func asg(v string, e node.Type) node.Type     { return node.Assign{VarRef: node.Name(v), Value: e} }
 func bin(op string, l, r node.Type) node.Type { return node.BinOp{Op: op, Left: l, Right: r} }
 
 // Embeddings of an expression e into statement positions. Each returns the program (one top-level
